@@ -370,8 +370,13 @@ char *_GD_BuildCode(DIRFILE *D, int index, const char *ns, size_t nslen,
   size_t frag_nsl, len, newlen;
   int repr;
 
+  /* GD_CO_REPRZ may be or'd into nons: ".z" is then a representation suffix */
+  const unsigned reprz = (unsigned)nons & GD_CO_REPRZ;
+
   dtrace("%p, %i, \"%s\", %" PRIuSIZE ", \"%s\", %i, %p", D, index, ns, nslen,
       code, nons, offset);
+
+  nons &= ~GD_CO_REPRZ;
 
   if (nons) { /* No namespaces allowed! */
     frag_ns = ns = NULL;
@@ -405,7 +410,8 @@ char *_GD_BuildCode(DIRFILE *D, int index, const char *ns, size_t nslen,
     /* If we were passed offset (which only occurs in the parser), we have to do
      * this, I guess */
     if (newcode && offset) {
-      repr = _GD_SlashDot(newcode, len, nons ? GD_CO_EARLY : 0, &dot, &slash);
+      repr = _GD_SlashDot(newcode, len, nons ? GD_CO_EARLY : reprz, &dot,
+          &slash);
       if (dot)
         *offset = dot - newcode + 1; /* Advance past the '.' */
       else
@@ -436,7 +442,7 @@ char *_GD_BuildCode(DIRFILE *D, int index, const char *ns, size_t nslen,
     ptr += nslen;
   }
 
-  repr = _GD_SlashDot(code, len, nons ? GD_CO_EARLY : 0, &dot, &slash);
+  repr = _GD_SlashDot(code, len, nons ? GD_CO_EARLY : reprz, &dot, &slash);
 
   if (repr) /* forget about the representation suffix */
     len -= 2;
